@@ -57,8 +57,11 @@ func (td TypeDeclaration) CompletionAtPos(ctx context.Context, pos hcl.Pos) []la
 			return allTypeDeclarationsAsCandidates(prefix, editRange)
 		}
 
-		// position inside paranthesis
-		if hcl.RangeBetween(eType.OpenParenRange, eType.CloseParenRange).ContainsPos(pos) {
+		// position inside paranthesis (behind the opening one: with blanks
+		// between the type name and "(" the cursor may still be in front of it)
+		parensRange := hcl.RangeBetween(eType.OpenParenRange, eType.CloseParenRange)
+		parensRange.Start = eType.OpenParenRange.End
+		if parensRange.ContainsPos(pos) {
 			if isTypeNameWithElementOnly(eType.Name) {
 				if len(eType.Args) == 0 {
 					editRange := hcl.Range{
